@@ -33,7 +33,7 @@ CLAIMS = {
              "admitted orderings are exactly 0 <= idx < size (rejecting paths raise IndexError before any store; __setitem__ stores "
              "exactly for val in {0,1}); all accesses agree on byte idx//8 and mask 1<<(idx%8); set is old|m, clear is old&~m, read is "
              "(old&m)!=0; stored bytes stay in [0,255]; allocation is ceil(size/8) bytes; clear/as_string/num_bits_set cover the full "
-             "range through the guarded reader and return nothing but what is recomputed from the bits (no remembered count). Accesses "
+             "range through the guarded reader (or read bit x of every x in range(size) directly with the documented byte/mask: the domain is the guard) and return nothing but what is recomputed from the bits (no remembered count). Accesses "
              "are compared in positional row form, so helper extraction, mask tables, divmod and |= spellings are the same program. "
              "Does not decide non-integer arguments.",
         design_ref="DESIGN.md section 4 C20"),
@@ -72,7 +72,7 @@ CLAIMS = {
     "C09": dict(
         technique="path-shape rules (must-precede, exactly-once) and ordering-set judgement of the growth predicate under an inductive hypothesis",
         text="Structural part: on every path of ExpandingBloomFilter.add_alt the total is incremented exactly once, the key is "
-             "inserted into the newest sub-filter exactly when force or not present, and the growth check runs once before the "
+             "inserted into the newest sub-filter exactly when force or not present (a skipped scan counts as 'not present' only where the path pins the filter to one sub-filter with counter 0 and the empty-filter lemmas hold), and the growth check runs once before the "
              "insertion (judged on the whole paths of add_alt with the private growth helpers looked through, so the rule does not "
              "depend on which helper holds the decision); the growth predicate admits growth only at count >= est and never leaves count = est without growth "
              "(judged by ordering sets under count <= est, so >=/==/not< pass and >, >= est-1 fail); growth appends one sub-filter "
@@ -91,7 +91,7 @@ CLAIMS = {
     "C17": dict(
         technique="decision tables (predicate abstraction by ordering sets) over enumerated paths; stored-vs-returned comparison",
         text="Structural part: StreamThreshold.add_alt/remove_alt set table[key] = estimate exactly on paths with estimate >= "
-             "threshold and pop the key exactly on paths below it; HeavyHitters.add_alt grows the table only with room (size < "
+             "threshold and pop the key exactly on paths below it (a table method remembered in a field is followed, and reported stale if the table is re-bound without refreshing it); HeavyHitters.add_alt grows the table only with room (size < "
              "limit), replaces by storing then evicting exactly the minimum, leaves a key untracked only when its estimate cannot "
              "exceed the cached smallest; recorded and returned values are the sketch's estimate; cached size/smallest are "
              "len(table)/table minimum. Does not decide tie-breaking or the relation of estimates to true counts.",
@@ -101,7 +101,7 @@ CLAIMS = {
         text="Structural part: for the five formats the writer's emission list is extracted from export and compared with every load "
              "entry point (path, file object, bytes, hex; 20+ readers): same struct format, every field packed at slot i is "
              "must-assigned from slot i on every reader path, payload taken from the input data with the allocation's typecode and "
-             "itemsize x length, expanding frames consumed with an exactly advancing cursor, __bytes__/path export delegate to one "
+             "itemsize x length, expanding frames consumed with an exactly advancing cursor (a frame whose counter reads 0 may be left as built when an empty sub-filter provably has zero cells, the cursor still advancing), __bytes__/path export delegate to one "
              "body (or spell out its emission list), the cuckoo empty-slot marker is outside the fingerprint interval, inherited alternate "
              "constructors build cls, a raw array initialiser is bytes (not an iterated buffer), Bloom constructors take the documented "
              "precedence file / hex string / parameters. "
@@ -111,7 +111,7 @@ CLAIMS = {
         technique="tolerant normal-form comparison of sizing formulas; provenance of geometry arguments; effect analysis",
         text="Formula/determinism part only: the three sizing computations are compared in normal form (float constants exactly: the documented divisor 0.4804530139182 is not ln(2)**2) "
              "with the formulas quoted in the property (Bloom bits/hashes incl. float32 narrowing and the zero-hash rejection; "
-             "count-min width/depth on every constructor path that keeps the caller's accuracy pair; cuckoo fingerprint bits and its inverse); they have no write effect and call only pure "
+             "count-min width/depth on every constructor path that keeps the caller's accuracy pair, for the base class and for every subclass with its own constructor looked through; cuckoo fingerprint bits and its inverse); they have no write effect and call only pure "
              "functions; every write of the Bloom geometry goes through _set_values with arguments originating from "
              "_get_optimized_params applied to the stored (est_elements, rate), in constructors and all loaders, which is what makes a "
              "reload reproduce the geometry. NOT decided: the numeric inequalities (7% allowance, 2/width <= eps, ...) under "
